@@ -191,6 +191,11 @@ impl Emb {
         let mut table = Vec::with_capacity(max_tick as usize + 1);
         let mut acc: u64 = 0;
         for k in 0..=max_tick {
+            if kind == "huge" {
+                // ~95 simulated years per tick: beyond 2^64 ns after a few ticks
+                table.push(Duration::from_secs(k * 3_000_000_000));
+                continue;
+            }
             let d = match kind {
                 "ns" => k,
                 "w" => k * wn,
